@@ -1,5 +1,6 @@
 """C10 — concurrent sessions behave like some serial order."""
 import json
+import os
 import re
 import vlib
 from checks import c08 as S
@@ -21,6 +22,7 @@ THEOREMS = [
     # refutations of the unrestricted statements, by evaluation of schedules taken from the
     # implementation
     "SC.create_create_witness", "SC.drop_vs_compaction_panic_witness", "SC.drop_vs_insert_witness",
+    "SC.drop_dv_vs_compaction_witness",
     "SC.no_panic_unrestricted_false",
 ]
 
@@ -32,6 +34,32 @@ SIG_SEQ_DV = "reopen:dv-of-compacted-rowset-after-drop"
 SIG_MT = "delivery:multi-thread-deactivate-race"
 SIG_DROP_CP_ORPHAN = "sched:drop-vs-compaction-orphan-rowset"
 SIG_DEL_DEL = "sched:delete-scan-before-concurrent-delete-commit"
+SIG_DELETE_DV = "sched:drop-vs-compaction-delete-dv-panic"
+
+
+def panic_site(detail):
+    """`dir/file.rs:LINE:msg` -> `file.rs:function` (the function of /repo's source containing
+    the line), so that signatures do not depend on line numbers."""
+    m = re.match(r"((?:[A-Za-z_0-9]+/)?[A-Za-z_]+\.rs):(\d+):", detail)
+    if not m:
+        return detail[:40]
+    rel, line = m.group(1), int(m.group(2))
+    base = rel.split("/")[-1]
+    import glob
+    for path in sorted(glob.glob(os.path.join(vlib.REPO, "src", "**", base), recursive=True)):
+        if not path.endswith("/" + rel):
+            continue
+        try:
+            lines = open(path).read().split("\n")
+        except OSError:
+            continue
+        if line > len(lines):
+            continue
+        for k in range(line - 1, -1, -1):
+            mm = re.match(r"\s*(?:pub(?:\([a-z]+\))?\s+)?(?:async\s+)?fn\s+([A-Za-z0-9_]+)", lines[k])
+            if mm:
+                return "%s:%s" % (base, mm.group(1))
+    return base
 
 
 def statements(trace):
@@ -142,12 +170,15 @@ def shapes(trace):
                 found.add(SIG_CREATE)
             committed_create.discard(a)
         elif name == "panic":
-            if "version_manager.rs" in detail and cur.get(a, "") == "compact":
+            site = panic_site(detail)
+            if site == "version_manager.rs:delete_rowset" and cur.get(a, "") == "compact":
                 found.add(SIG_DROP_CP)
-            elif "mod.rs" in detail:
+            elif site == "version_manager.rs:delete_dv":
+                found.add(SIG_DELETE_DV)
+            elif site == "mod.rs:new":
                 found.add(SIG_DROP_BOUND)
             else:
-                found.add("panic:" + detail[:40])
+                found.add("panic:" + site)
         elif name == "txn.pinned" and th != 0:
             m, t, _ = detail.split(",")
             mode[(a, th)] = (m, t)
@@ -278,11 +309,14 @@ def run(ck):
                 rb[0] += 1
             for kind, what in problems:
                 if kind == "serial":
-                    cands = lost | ({SIG_DROP_BOUND, SIG_DROP_CP, SIG_DEL_DEL} & sh)
+                    cands = lost | ({SIG_DROP_BOUND, SIG_DROP_CP, SIG_DEL_DEL, SIG_DELETE_DV} & sh)
                 elif kind == "panic":
-                    cands = {x for x in sh if x in (SIG_DROP_CP, SIG_DROP_BOUND) or x.startswith("panic:")}
-                else:
-                    cands = {x for x in sh if x in (SIG_CREATE, SIG_DROP_INS, SIG_SEQ_DV, SIG_DROP_CP_ORPHAN)} | (lost if kind == "reopen-state" else set())
+                    cands = {x for x in sh if x in (SIG_DROP_CP, SIG_DROP_BOUND, SIG_DELETE_DV) or x.startswith("panic:")}
+                elif kind == "reopen":
+                    cands = {SIG_CREATE, SIG_DROP_INS, SIG_DROP_CP_ORPHAN} & sh
+                else:   # reopen-state
+                    cands = lost | ({SIG_DELETE_DV} & sh)
+                cands = {x for x in cands if not x.startswith("panic:")} | {x for x in cands if x.startswith("panic:")}
                 for x in cands:
                     reasons[x] = reasons.get(x, 0) + 1
                 if not cands:
